@@ -687,3 +687,152 @@ Proof. exact cut_invariant_nonvacuous. Qed.
 Print Assumptions C15_rebuild_keys_prefix.
 Print Assumptions C15_stored_class_sides.
 Print Assumptions C15_cut_invariant.
+
+(** ---- ONE BIT (Stereo/EzCut.v): the stored class of four atoms depends on the cut only through [early_before] = the ligand of
+    the EARLIER anchor comes before it; two cuts (any placement, any part order) carrying the same two tokens store the same
+    class IF AND ONLY IF they agree on that bit - the exact content of the open classes as far as stored classes go *)
+Theorem C15_stored_class_bit : forall C, wf_cut C -> forall fd, templates_ok C fd -> wf_dict fd -> forall B, is_base C B ->
+  heavy_payload C -> numeric_orders C -> forall tok,
+  (forall name xs T i x n, In (name, xs) (c_parts C) -> fd_get name fd = Some T ->
+     nth_error xs i = Some x -> gfind (Z.of_nat i) T = Some n -> aget ezk (na n) = tok x) ->
+  forall prev fo, next_meta prev = B -> resolve_step_full true true fd prev (Some (fo_m3 fo)) = Ok fo ->
+  exists m, sort_mapping (fo_m4 fo) = Ok m /\
+    forall lx ax ay ly c k, In lx (flat C) -> In ax (flat C) -> In ay (flat C) -> In ly (flat C) ->
+      is_new (fo_m5 fo) (fo_mol fo) k
+        (ez_tuple (map_get m (phi C lx)) (map_get m (phi C ax)) (map_get m (phi C ay)) (map_get m (phi C ly)) c) ->
+      exists tx ty, tok lx = Some tx /\ tok ly = Some ty /\ is_tok tx = true /\ is_tok ty = true /\
+        c = class_val (negb (xorb (xorb (is_slash tx) (is_slash ty)) (early_before C lx ax ay ly))).
+Proof. exact stored_class_bit. Qed.
+Theorem C15_order_dependence_exact : forall C1 C2 fd1 fd2 B1 B2 tok1 tok2 prev1 prev2 fo1 fo2,
+  wf_cut C1 -> templates_ok C1 fd1 -> wf_dict fd1 -> is_base C1 B1 -> heavy_payload C1 -> numeric_orders C1 ->
+  wf_cut C2 -> templates_ok C2 fd2 -> wf_dict fd2 -> is_base C2 B2 -> heavy_payload C2 -> numeric_orders C2 ->
+  (forall name xs T i x n, In (name, xs) (c_parts C1) -> fd_get name fd1 = Some T ->
+     nth_error xs i = Some x -> gfind (Z.of_nat i) T = Some n -> aget ezk (na n) = tok1 x) ->
+  (forall name xs T i x n, In (name, xs) (c_parts C2) -> fd_get name fd2 = Some T ->
+     nth_error xs i = Some x -> gfind (Z.of_nat i) T = Some n -> aget ezk (na n) = tok2 x) ->
+  next_meta prev1 = B1 -> next_meta prev2 = B2 ->
+  resolve_step_full true true fd1 prev1 (Some (fo_m3 fo1)) = Ok fo1 -> resolve_step_full true true fd2 prev2 (Some (fo_m3 fo2)) = Ok fo2 ->
+  exists m1 m2, sort_mapping (fo_m4 fo1) = Ok m1 /\ sort_mapping (fo_m4 fo2) = Ok m2 /\
+    forall lx ax ay ly c1 c2 k1 k2,
+      In lx (flat C1) -> In ax (flat C1) -> In ay (flat C1) -> In ly (flat C1) ->
+      In lx (flat C2) -> In ax (flat C2) -> In ay (flat C2) -> In ly (flat C2) ->
+      tok1 lx = tok2 lx -> tok1 ly = tok2 ly ->
+      is_new (fo_m5 fo1) (fo_mol fo1) k1
+        (ez_tuple (map_get m1 (phi C1 lx)) (map_get m1 (phi C1 ax)) (map_get m1 (phi C1 ay)) (map_get m1 (phi C1 ly)) c1) ->
+      is_new (fo_m5 fo2) (fo_mol fo2) k2
+        (ez_tuple (map_get m2 (phi C2 lx)) (map_get m2 (phi C2 ax)) (map_get m2 (phi C2 ay)) (map_get m2 (phi C2 ly)) c2) ->
+      (c1 = c2 <-> early_before C1 lx ax ay ly = early_before C2 lx ax ay ly).
+Proof. exact order_dependence_exact. Qed.
+(** non-vacuity = the known finding second_anchor_ligand_lower at the level of cuts: the two base orders of
+    {#A=F/C(Cl)=[$],#B=[$]=C(Br)/I} disagree on the bit and store trans / cis (both through resolve_string) *)
+Example C15_order_dependence_nonvacuous :
+  to_string (sAB tF tI) = "{[#A][#B]}.{#A=F/C(Cl)=[$],#B=[$]=C(Br)/I}"%string /\
+  to_string (sBA tF tI) = "{[#B][#A]}.{#A=F/C(Cl)=[$],#B=[$]=C(Br)/I}"%string /\
+  exists fd o1 o2,
+    let tok := tok2 [0; 2; 4] [1; 3; 5] ezF ez02 in let C2 := swap_parts Cw in
+    wf_cut Cw /\ templates_ok Cw fd /\ wf_dict fd /\ is_base Cw (next_meta baseAB) /\ heavy_payload Cw /\ numeric_orders Cw /\
+    wf_cut C2 /\ templates_ok C2 fd /\ is_base C2 (next_meta baseBA) /\ heavy_payload C2 /\ numeric_orders C2 /\
+    (forall name xs T i x n, In (name, xs) (c_parts Cw) -> fd_get name fd = Some T ->
+       nth_error xs i = Some x -> gfind (Z.of_nat i) T = Some n -> aget ezk (na n) = tok x) /\
+    (forall name xs T i x n, In (name, xs) (c_parts C2) -> fd_get name fd = Some T ->
+       nth_error xs i = Some x -> gfind (Z.of_nat i) T = Some n -> aget ezk (na n) = tok x) /\
+    resolve_step_full true true fd baseAB (Some (fo_m3 o1)) = Ok o1 /\ resolve_step_full true true fd baseBA (Some (fo_m3 o2)) = Ok o2 /\
+    resolve_string EzStringExamples.fo0 (sAB tF tI) = Ok o1 /\ resolve_string EzStringExamples.fo0 (sBA tF tI) = Ok o2 /\
+    let m1 := mapping_of_out o1 in let m2 := mapping_of_out o2 in
+    sort_mapping (fo_m4 o1) = Ok m1 /\ sort_mapping (fo_m4 o2) = Ok m2 /\
+    early_before Cw 0 2 1 5 = true /\ early_before C2 0 2 1 5 = false /\
+    is_new (fo_m5 o1) (fo_mol o1) (map_get m1 (phi Cw 0))
+      (ez_tuple (map_get m1 (phi Cw 0)) (map_get m1 (phi Cw 2)) (map_get m1 (phi Cw 1)) (map_get m1 (phi Cw 5)) v_trans) /\
+    is_new (fo_m5 o2) (fo_mol o2) (map_get m2 (phi C2 0))
+      (ez_tuple (map_get m2 (phi C2 0)) (map_get m2 (phi C2 2)) (map_get m2 (phi C2 1)) (map_get m2 (phi C2 5)) v_cis).
+Proof. exact order_dependence_nonvacuous. Qed.
+Print Assumptions C15_stored_class_bit.
+Print Assumptions C15_order_dependence_exact.
+
+(** ez_cut_invariant through the parser, for two-fragment strings (two strings cutting the same molecule at different
+    places, e.g. at the stereo double bond and elsewhere) *)
+Theorem C15_cut_invariant_strings : forall fo C1 C2 xsA1 xsB1 xsA2 xsB2 tokA1 tokB1 tokA2 tokB2 dcA1 dcB1 dcA2 dcB2 ezA1 ezB1 ezA2 ezB2
+        TA1 TB1 TA2 TB2 (base1 base2 : pystr) mol1 mol2 o1 o2,
+  let tA1 := FragText.render (decorate tokA1 dcA1) in let tB1 := FragText.render (decorate tokB1 dcB1) in
+  let tA2 := FragText.render (decorate tokA2 dcA2) in let tB2 := FragText.render (decorate tokB2 dcB2) in
+  let tok1 := tok2 xsA1 xsB1 ezA1 ezB1 in let tok2' := tok2 xsA2 xsB2 ezA2 ezB2 in
+  frag_reading fo C1 nA xsA1 tokA1 dcA1 ezA1 TA1 -> frag_reading fo C1 nB xsB1 tokB1 dcB1 ezB1 TB1 -> parts_AB C1 xsA1 xsB1 ->
+  frag_reading fo C2 nA xsA2 tokA2 dcA2 ezA2 TA2 -> frag_reading fo C2 nB xsB2 tokB2 dcB2 ezB2 TB2 -> parts_AB C2 xsA2 xsB2 ->
+  wf_cut C1 -> heavy_payload C1 -> numeric_orders C1 -> wf_cut C2 -> heavy_payload C2 -> numeric_orders C2 ->
+  base1 <> [] -> ~ In "}"%char base1 -> read_cgsmiles fo ("{"%char :: base1 ++ ["}"%char]) = Ok mol1 -> is_base C1 (next_meta mol1) ->
+  base2 <> [] -> ~ In "}"%char base2 -> read_cgsmiles fo ("{"%char :: base2 ++ ["}"%char]) = Ok mol2 -> is_base C2 (next_meta mol2) ->
+  ~ In ","%char tA1 /\ ~ In ","%char tB1 /\ ~ In "}"%char tA1 /\ ~ In "}"%char tB1 ->
+  ~ In ","%char tA2 /\ ~ In ","%char tB2 /\ ~ In "}"%char tA2 /\ ~ In "}"%char tB2 ->
+  resolve_string fo ("{"%char :: base1 ++ "}"%char :: "."%char :: block2 tA1 tB1) = Ok o1 ->
+  resolve_string fo ("{"%char :: base2 ++ "}"%char :: "."%char :: block2 tA2 tB2) = Ok o2 ->
+  exists m1 m2, sort_mapping (fo_m4 o1) = Ok m1 /\ sort_mapping (fo_m4 o2) = Ok m2 /\
+    forall lx ax ay ly ux uy c1 c2 k1 k2,
+      In lx (flat C1) -> In ax (flat C1) -> In ay (flat C1) -> In ly (flat C1) ->
+      In lx (flat C2) -> In ax (flat C2) -> In ay (flat C2) -> In ly (flat C2) ->
+      tok1 lx = Some (tok_of ux (wb C1 lx ax)) -> tok1 ly = Some (tok_of uy (wb C1 ly ay)) ->
+      tok2' lx = Some (tok_of ux (wb C2 lx ax)) -> tok2' ly = Some (tok_of uy (wb C2 ly ay)) ->
+      late_after C1 lx ax ay ly = true -> late_after C2 lx ax ay ly = true ->
+      is_new (fo_m5 o1) (fo_mol o1) k1
+        (ez_tuple (map_get m1 (phi C1 lx)) (map_get m1 (phi C1 ax)) (map_get m1 (phi C1 ay)) (map_get m1 (phi C1 ly)) c1) ->
+      is_new (fo_m5 o2) (fo_mol o2) k2
+        (ez_tuple (map_get m2 (phi C2 lx)) (map_get m2 (phi C2 ax)) (map_get m2 (phi C2 ay)) (map_get m2 (phi C2 ly)) c2) ->
+      c1 = class_val (Bool.eqb ux uy) /\ c2 = class_val (Bool.eqb ux uy).
+Proof. exact cut_invariant_strings. Qed.
+(** non-vacuity: the readings of the two strings of C15_cut_invariant_nonvacuous (the remaining hypotheses and the stored
+    classes are listed there) *)
+Example C15_cut_invariant_strings_nonvacuous :
+  (exists T, frag_reading EzStringExamples.fo0 C12 nA (keysX 0 1) (toksX "Cl" 1) (dcl 1) ez02 T) /\
+  (exists T, frag_reading EzStringExamples.fo0 C12 nB (keysX 1 2) (toksX "Br" 2) (dcl 2) ez02 T) /\ parts_AB C12 (keysX 0 1) (keysX 1 2) /\
+  (exists T, frag_reading EzStringExamples.fo0 C12p nA xsP toksP dcP ezP T) /\
+  (exists T, frag_reading EzStringExamples.fo0 C12p nB [9] toksQ dcQ [] T) /\ parts_AB C12p xsP [9] /\
+  read_cgsmiles EzStringExamples.fo0 ("{"%char :: S "[#A][#B]" ++ ["}"%char]) = Ok baseAB.
+Proof.
+  split; [eexists; exact readingA|]. split; [eexists; exact readingB|]. split; [left; reflexivity|].
+  split; [exact readingP|]. split; [exact readingQ|]. split; [left; reflexivity|]. exact (read_baseAB _).
+Qed.
+Print Assumptions C15_cut_invariant_strings.
+
+(** ... and ONE FRAGMENT against a cut in two ({[#A]}.{#A=t} vs {base}.{#A=tA,#B=tB}): with C15_cut_invariant_strings this is
+    the property's "the same whether the molecule is one fragment, cut at the double bond, or cut at single bonds elsewhere"
+    on strings, through the parsers, outside the open classes *)
+Theorem C15_one_vs_two_strings : forall fo C1 C2 xs1 xsA2 xsB2 tok1 tokA2 tokB2 dc1 dcA2 dcB2 ez1 ezA2 ezB2 T1 TA2 TB2 (base2 : pystr) mol2 o1 o2,
+  let t1 := FragText.render (decorate tok1 dc1) in
+  let tA2 := FragText.render (decorate tokA2 dcA2) in let tB2 := FragText.render (decorate tokB2 dcB2) in
+  let tk1 := tok1f xs1 ez1 in let tk2 := tok2 xsA2 xsB2 ezA2 ezB2 in
+  frag_reading fo C1 nA xs1 tok1 dc1 ez1 T1 -> c_parts C1 = [(nA, xs1)] ->
+  frag_reading fo C2 nA xsA2 tokA2 dcA2 ezA2 TA2 -> frag_reading fo C2 nB xsB2 tokB2 dcB2 ezB2 TB2 -> parts_AB C2 xsA2 xsB2 ->
+  wf_cut C1 -> heavy_payload C1 -> numeric_orders C1 -> wf_cut C2 -> heavy_payload C2 -> numeric_orders C2 ->
+  is_base C1 (next_meta baseA) ->
+  base2 <> [] -> ~ In "}"%char base2 -> read_cgsmiles fo ("{"%char :: base2 ++ ["}"%char]) = Ok mol2 -> is_base C2 (next_meta mol2) ->
+  ~ In ","%char t1 -> ~ In "}"%char t1 ->
+  ~ In ","%char tA2 /\ ~ In ","%char tB2 /\ ~ In "}"%char tA2 /\ ~ In "}"%char tB2 ->
+  resolve_string fo (sA t1) = Ok o1 ->
+  resolve_string fo ("{"%char :: base2 ++ "}"%char :: "."%char :: block2 tA2 tB2) = Ok o2 ->
+  exists m1 m2, sort_mapping (fo_m4 o1) = Ok m1 /\ sort_mapping (fo_m4 o2) = Ok m2 /\
+    forall lx ax ay ly ux uy c1 c2 k1 k2,
+      In lx (flat C1) -> In ax (flat C1) -> In ay (flat C1) -> In ly (flat C1) ->
+      In lx (flat C2) -> In ax (flat C2) -> In ay (flat C2) -> In ly (flat C2) ->
+      tk1 lx = Some (tok_of ux (wb C1 lx ax)) -> tk1 ly = Some (tok_of uy (wb C1 ly ay)) ->
+      tk2 lx = Some (tok_of ux (wb C2 lx ax)) -> tk2 ly = Some (tok_of uy (wb C2 ly ay)) ->
+      late_after C1 lx ax ay ly = true -> late_after C2 lx ax ay ly = true ->
+      is_new (fo_m5 o1) (fo_mol o1) k1
+        (ez_tuple (map_get m1 (phi C1 lx)) (map_get m1 (phi C1 ax)) (map_get m1 (phi C1 ay)) (map_get m1 (phi C1 ly)) c1) ->
+      is_new (fo_m5 o2) (fo_mol o2) k2
+        (ez_tuple (map_get m2 (phi C2 lx)) (map_get m2 (phi C2 ax)) (map_get m2 (phi C2 ay)) (map_get m2 (phi C2 ly)) c2) ->
+      c1 = class_val (Bool.eqb ux uy) /\ c2 = class_val (Bool.eqb ux uy).
+Proof. exact one_vs_two_strings. Qed.
+(** non-vacuity, the one-fragment side (the two-fragment side is C15_cut_invariant_nonvacuous / _strings_nonvacuous):
+    {[#A]}.{#A=C(Cl)(/CC)=C(Br)/CCC} resolves and stores `cis` for the same four atoms *)
+Example C15_one_vs_two_nonvacuous :
+  to_string (sA tS) = "{[#A]}.{#A=C(Cl)(/CC)=C(Br)/CCC}"%string /\
+  (exists T0, frag_reading EzStringExamples.fo0 C1s nA xsS toksS dcS ezP T0) /\ c_parts C1s = [(nA, xsS)] /\
+  wf_cut C1s /\ heavy_payload C1s /\ numeric_orders C1s /\ is_base C1s (next_meta baseA) /\
+  ~ In ","%char tS /\ ~ In "}"%char tS /\
+  let tk1 := tok1f xsS ezP in
+  tk1 4 = Some (tok_of true (wb C1s 4 0)) /\ tk1 5 = Some (tok_of true (wb C1s 5 1)) /\ late_after C1s 4 0 1 5 = true /\
+  exists o1, resolve_string EzStringExamples.fo0 (sA tS) = Ok o1 /\
+    let m1 := mapping_of_out o1 in sort_mapping (fo_m4 o1) = Ok m1 /\
+    is_new (fo_m5 o1) (fo_mol o1) (map_get m1 (phi C1s 4))
+      (ez_tuple (map_get m1 (phi C1s 4)) (map_get m1 (phi C1s 0)) (map_get m1 (phi C1s 1)) (map_get m1 (phi C1s 5)) v_cis).
+Proof. exact one_vs_two_nonvacuous. Qed.
+Print Assumptions C15_one_vs_two_strings.
